@@ -26,8 +26,8 @@ def inner_fail_variants():
     return out
 
 
-def scenario(hist, entry, rng, weighted):
-    a = entry.make(rng.randint(0, 1))
+def scenario(hist, entry, rng, weighted, variant):
+    a = entry.make(variant)
     hist.new(a)
     X, y = entry.data(rng)
     X0, y0 = copy.deepcopy(X), copy.deepcopy(y)
@@ -49,6 +49,10 @@ def scenario(hist, entry, rng, weighted):
         hist.obs(a, m, X0, "FailureIsTransparent", note="after failed fits")
     if hasattr(a, "score") and y is not None and entry.rowwise:
         hist.call(a, "score", lambda: a.score(X, y), [X, y], expect_ok=False)
+        if weighted:
+            w = numpy.array([float(1 + (i % 3)) for i in range(X.shape[0])])
+            hist.call(a, "score", lambda: a.score(X, y, sample_weight=w), [X, y, w], expect_ok=False)
+            hist.call(a, "score", lambda: a.score(X, y, sample_weight=w), [X, y, w], expect_ok=False)
     # a fresh clone fitted on the same data gives the same model
     c = hist.clone(a, {k for k in vars(entry.make(0)) if k.endswith("_")})
     if c is not None and entry.name != "TransferTransformer":      # a clone of a TransferTransformer wraps an UNFITTED estimator
@@ -76,13 +80,13 @@ def run(ctx):
         if not entry.fit or not entry.rowwise:
             ctx.skipped.append("%s: %s" % (entry.name, entry.notes or "not a row-wise predictor (covered by C13 / C20)"))
             continue
-        for rep in range(3 if thorough else 1):
-            for weighted in ([False, True] if entry.name in supports_w else [False]):
-                if entry.name == "KMeansL1L2" and weighted:
+        for rep in range(4 if thorough else 2):
+            for weighted in ([False, True] if entry.name.split("[")[0] in supports_w else [False]):
+                if entry.name.startswith("KMeansL1L2") and weighted:
                     continue      # non-uniform weights: documented NotImplementedError for norm='L1'
                 tid += 1
                 hist = lifecycle.History(tid, "C02 " + entry.name, "bad-data history" + (" weighted" if weighted else ""))
-                scenario(hist, entry, rng, weighted)
+                scenario(hist, entry, rng, weighted, (tid + rep) % 2 if thorough else tid % 2)
                 ctx.case((entry.name, rep, weighted), sample=dict(kind="history", cls=entry.name,
                                                                   events=[(e["a"], e.get("kind", ""), e.get("outcome", "")) for e in hist.t["ev"][:8]]))
                 traces.append(hist.t)
